@@ -21,7 +21,7 @@ package middleware
 
 // Closing the gzip wrapper flushes to the underlying writer; it enters no handler.
 //@ func (*gzipResponseWriter).Close [C20]
-//@   modifies fields(gzw), statusWrites, lastStatus
+//@   modifies fields(gzw), statusWrites, lastStatus, respLast
 
 //@ func newGzipResponseWriter
 //@   modifies nothing
